@@ -228,7 +228,7 @@ func (s *Sys) auditFast() string {
 	var parts []string
 	for ; it.Valid(); it.Next() {
 		k, val := it.Key(), it.Value()
-		_, n, err := rdVarint(val)
+		ver, n, err := rdVarint(val)
 		if err != nil {
 			parts = append(parts, hex.EncodeToString(k[1:])+"=BAD")
 			continue
@@ -238,9 +238,12 @@ func (s *Sys) auditFast() string {
 			parts = append(parts, hex.EncodeToString(k[1:])+"=BAD")
 			continue
 		}
-		parts = append(parts, hex.EncodeToString(k[1:])+"="+hex.EncodeToString(v))
+		parts = append(parts, fmt.Sprintf("%s=%s@%d", hex.EncodeToString(k[1:]), hex.EncodeToString(v), ver))
 	}
 	label, _ := s.db.Get([]byte("mstorage_version"))
+	if len(label) == 0 {
+		label = []byte("1.0.0") // never written: the default storage version
+	}
 	return "af(" + string(label) + ";[" + strings.Join(parts, ",") + "])"
 }
 
